@@ -441,51 +441,51 @@ func (spt *Tracker) recoverWithPinInfo(ctx context.Context, pi *api.PinInfo) (*a
 	return spt.Status(ctx, pi.Cid), nil
 }
 
-func (spt *Tracker) ipfsStatusAll(ctx context.Context) (map[cid.Cid]*api.PinInfo, error) {
+// ipfsStatusAll lists the pins in IPFS, separately for each pin mode
+// (direct and recursive IPFS pins).
+func (spt *Tracker) ipfsStatusAll(ctx context.Context) (map[api.PinMode]map[cid.Cid]*api.PinInfo, error) {
 	ctx, span := trace.StartSpan(ctx, "tracker/stateless/ipfsStatusAll")
 	defer span.End()
 
 	// List both recursive and direct pins: cluster pins in direct mode
 	// are direct pins in IPFS.
-	ipsMap := make(map[string]api.IPFSPinStatus)
-	for _, typeFilter := range []string{"direct", "recursive"} {
-		var typeMap map[string]api.IPFSPinStatus
+	byMode := make(map[api.PinMode]map[cid.Cid]*api.PinInfo, 2)
+	for _, mode := range []api.PinMode{api.PinModeDirect, api.PinModeRecursive} {
+		var ipsMap map[string]api.IPFSPinStatus
 		err := spt.rpcClient.CallContext(
 			ctx,
 			"",
 			"IPFSConnector",
 			"PinLs",
-			typeFilter,
-			&typeMap,
+			mode.String(),
+			&ipsMap,
 		)
 		if err != nil {
 			logger.Error(err)
 			return nil, err
 		}
-		for k, v := range typeMap {
-			ipsMap[k] = v
+		pins := make(map[cid.Cid]*api.PinInfo, len(ipsMap))
+		for cidstr, ips := range ipsMap {
+			c, err := cid.Decode(cidstr)
+			if err != nil {
+				logger.Error(err)
+				continue
+			}
+			p := &api.PinInfo{
+				Cid:  c,
+				Name: "", // to be filled later
+				Peer: spt.peerID,
+				PinInfoShort: api.PinInfoShort{
+					PeerName: spt.peerName,
+					Status:   ips.ToTrackerStatus(),
+					TS:       time.Now(),
+				},
+			}
+			pins[c] = p
 		}
+		byMode[mode] = pins
 	}
-	pins := make(map[cid.Cid]*api.PinInfo, len(ipsMap))
-	for cidstr, ips := range ipsMap {
-		c, err := cid.Decode(cidstr)
-		if err != nil {
-			logger.Error(err)
-			continue
-		}
-		p := &api.PinInfo{
-			Cid:  c,
-			Name: "", // to be filled later
-			Peer: spt.peerID,
-			PinInfoShort: api.PinInfoShort{
-				PeerName: spt.peerName,
-				Status:   ips.ToTrackerStatus(),
-				TS:       time.Now(),
-			},
-		}
-		pins[c] = p
-	}
-	return pins, nil
+	return byMode, nil
 }
 
 // localStatus returns a joint set of consensusState and ipfsStatus marking
@@ -520,7 +520,7 @@ func (spt *Tracker) localStatus(ctx context.Context, incExtra bool, filter api.T
 		}
 	}
 
-	var localpis map[cid.Cid]*api.PinInfo
+	var localpis map[api.PinMode]map[cid.Cid]*api.PinInfo
 	// Only query IPFS if we want to status for pinned items
 	if filter.Match(api.TrackerStatusPinned | api.TrackerStatusUnexpectedlyUnpinned) {
 		localpis, err = spt.ipfsStatusAll(ctx)
@@ -532,7 +532,9 @@ func (spt *Tracker) localStatus(ctx context.Context, incExtra bool, filter api.T
 
 	pininfos := make(map[cid.Cid]*api.PinInfo, len(statePins))
 	for _, p := range statePins {
-		ipfsInfo, pinnedInIpfs := localpis[p.Cid]
+		// look the pin up among the IPFS pins of its own mode, like
+		// Status() does with PinLsCid.
+		ipfsInfo, pinnedInIpfs := localpis[p.MaxDepth.ToPinMode()][p.Cid]
 		// base pinInfo object - status to be filled.
 		pinInfo := api.PinInfo{
 			Cid:  p.Cid,
